@@ -13,7 +13,7 @@
 (***************************************************************************)
 EXTENDS Mul, TLC, FiniteSets
 
-VARIABLES kind, s, u, a
+VARIABLES mKind, mS, mU, mA
 
 FP   == 0..(P - 1)
 Aff  == TLCEval({<<x, y>> \in FP \X FP : (y * y) % P = (x * x * x + B) % P})
@@ -25,26 +25,26 @@ RefMul(k, pt) == IF k = 0 THEN Inf ELSE PAdd(RefMul(k - 1, pt), pt)
 
 SmallPts == {Inf, GenPt, PNeg(GenPt), PDbl(GenPt), PMulG(5 % N), PNeg(PMulG(5 % N))}
 
-Init == \/ kind = "mul"  /\ s \in ZN /\ u = 0 /\ a = Inf
-        \/ kind = "dsm"  /\ s \in ZN /\ u = 0 /\ a = Inf
-        \/ kind = "msm2" /\ s \in ZN /\ u = 0 /\ a = Inf
-Next == \/ kind = "mul"  /\ kind' = "mul-pt"  /\ a' \in Pts /\ UNCHANGED <<s, u>>
-        \/ kind = "dsm"  /\ kind' = "dsm-pt"  /\ a' \in Pts /\ u' \in {0, 1, N - 1, HalfN, HalfN + 1, 7 % N} /\ UNCHANGED s
-        \/ kind = "msm2" /\ kind' = "msm2-pt" /\ a' \in Pts /\ UNCHANGED s
-           /\ u' \in (IF IOEnv.VERIF_MCFULL = "1" THEN ZN ELSE {0, 1, 2, N - 1, HalfN, HalfN + 1, 7 % N, (N - s) % N})
+Init == \/ mKind = "mul"  /\ mS \in ZN /\ mU = 0 /\ mA = Inf
+        \/ mKind = "dsm"  /\ mS \in ZN /\ mU = 0 /\ mA = Inf
+        \/ mKind = "msm2" /\ mS \in ZN /\ mU = 0 /\ mA = Inf
+Next == \/ mKind = "mul"  /\ mKind' = "mul-pt"  /\ mA' \in Pts /\ UNCHANGED <<mS, mU>>
+        \/ mKind = "dsm"  /\ mKind' = "dsm-pt"  /\ mA' \in Pts /\ mU' \in {0, 1, N - 1, HalfN, HalfN + 1, 7 % N} /\ UNCHANGED mS
+        \/ mKind = "msm2" /\ mKind' = "msm2-pt" /\ mA' \in Pts /\ UNCHANGED mS
+           /\ mU' \in (IF IOEnv.VERIF_MCFULL = "1" THEN ZN ELSE {0, 1, 2, N - 1, HalfN, HalfN + 1, 7 % N, (N - mS) % N})
 
 Round(num, den) == (2 * num + den) \div (2 * den)      \* round half up, exact
 
-SplitInv == kind = "mul" =>
-  LET kk == SplitGLV(s)  n1 == Normalise(kk[1])  n2 == Normalise(kk[2]) IN
+SplitInv == mKind = "mul" =>
+  LET kk == SplitGLV(mS)  n1 == Normalise(kk[1])  n2 == Normalise(kk[2]) IN
   /\ kk[1] \in ZN /\ kk[2] \in ZN
-  /\ (kk[1] + kk[2] * Lambda) % N = s
+  /\ (kk[1] + kk[2] * Lambda) % N = mS
   /\ n1[1] < Pow2(HBits) /\ n2[1] < Pow2(HBits)
   /\ n1[1] <= BoundK1 /\ n2[1] <= BoundK2
-  /\ MulShift(s, G1) = Round(s * G1, Pow2(T)) /\ MulShift(s, G2) = Round(s * G2, Pow2(T))
-  /\ ScalarBaseMultCT(s) = RefMul(s, GenPt)
-  /\ ScalarBaseMultVartime(s) = RefMul(s, GenPt)
-  /\ PMulG(s) = RefMul(s, GenPt)                                    \* the D-level double-and-add agrees with repeated addition
+  /\ MulShift(mS, G1) = Round(mS * G1, Pow2(T)) /\ MulShift(mS, G2) = Round(mS * G2, Pow2(T))
+  /\ ScalarBaseMultCT(mS) = RefMul(mS, GenPt)
+  /\ ScalarBaseMultVartime(mS) = RefMul(mS, GenPt)
+  /\ PMulG(mS) = RefMul(mS, GenPt)                                    \* the D-level double-and-add agrees with repeated addition
 
 ConstInv ==
   /\ (LatA1 + LatB1 * Lambda) % N = 0 /\ (LatA2 + LatB2 * Lambda) % N = 0
@@ -55,18 +55,18 @@ ConstInv ==
   /\ PMulG(Lambda) = MulBeta(GenPt)
   /\ \A i \in 0..(W - 1) : \A j \in 1..15 : OddEntry(i, j) = HugeEntry(i, 16 * j)   \* fromIdx = 16(j+1) - 1, zero based
 
-MulInv == kind = "mul-pt" =>
-  /\ ScalarMultGLV(s, a) = RefMul(s, a)
-  /\ MulBeta(a) = RefMul(Lambda, a)
-  /\ MultiScalarMultAlg(<<s>>, <<a>>) = RefMul(s, a)
+MulInv == mKind = "mul-pt" =>
+  /\ ScalarMultGLV(mS, mA) = RefMul(mS, mA)
+  /\ MulBeta(mA) = RefMul(Lambda, mA)
+  /\ MultiScalarMultAlg(<<mS>>, <<mA>>) = RefMul(mS, mA)
 
-DsmInv == kind = "dsm-pt" =>
-  DoubleScalarMultAlg(u, s, a) = PAdd(RefMul(u, GenPt), RefMul(s, a))
+DsmInv == mKind = "dsm-pt" =>
+  DoubleScalarMultAlg(mU, mS, mA) = PAdd(RefMul(mU, GenPt), RefMul(mS, mA))
 
-Msm2Inv == kind = "msm2-pt" =>
-  /\ MultiScalarMultAlg(<<s, u>>, <<a, GenPt>>) = PAdd(RefMul(s, a), RefMul(u, GenPt))
-  /\ MultiScalarMultAlg(<<s, u>>, <<a, a>>) = RefMul((s + u) % N, a)               \* repeated point: doubling inside the sum
-  /\ MultiScalarMultAlg(<<s, u>>, <<a, PNeg(a)>>) = RefMul((s + N - u) % N, a)     \* mutually inverse points
-  /\ MultiScalarMultAlg(<<s, u, s>>, <<GenPt, a, PNeg(GenPt)>>) = RefMul(u, a)     \* partial sums through the identity
+Msm2Inv == mKind = "msm2-pt" =>
+  /\ MultiScalarMultAlg(<<mS, mU>>, <<mA, GenPt>>) = PAdd(RefMul(mS, mA), RefMul(mU, GenPt))
+  /\ MultiScalarMultAlg(<<mS, mU>>, <<mA, mA>>) = RefMul((mS + mU) % N, mA)               \* repeated point: doubling inside the sum
+  /\ MultiScalarMultAlg(<<mS, mU>>, <<mA, PNeg(mA)>>) = RefMul((mS + N - mU) % N, mA)     \* mutually inverse points
+  /\ MultiScalarMultAlg(<<mS, mU, mS>>, <<GenPt, mA, PNeg(GenPt)>>) = RefMul(mU, mA)     \* partial sums through the identity
   /\ MultiScalarMultAlg(<<>>, <<>>) = Inf
 =============================================================================
